@@ -352,7 +352,35 @@ ValsOf(obs, I, from) ==
 IsUnaryFam(cfg) == Len(cfg.nodes) = 2 /\ cfg.nodes[1].kind = "puppet"
                    /\ cfg.nodes[2].kind \in {"map", "filter", "scan", "take", "skip"} /\ cfg.root = 2
 
+\* a chain of unary operators over one puppet: nodes 2..N, node k subscribed to node k-1, root = N
+IsUnaryChain(cfg) == /\ Len(cfg.nodes) >= 3 /\ cfg.nodes[1].kind = "puppet" /\ cfg.root = Len(cfg.nodes)
+                     /\ \A n \in 2..Len(cfg.nodes) : cfg.nodes[n].kind \in {"map", "filter", "scan", "take", "skip"}
+                                                      /\ cfg.nodes[n].ups = <<n - 1>>
+RECURSIVE ChainL(_, _, _)
+ChainL(cfg, n, xs) == IF n > Len(cfg.nodes) THEN xs ELSE ChainL(cfg, n + 1, UnaryL(cfg.nodes[n], xs))
+
+\* C07 for a chain: the composition of the list functions, incrementally and synchronously
+C07Chain(cfg, obs) ==
+  LET nst == Nest(obs)
+      US == UNames(cfg, obs)
+  IN
+  UNION {
+    LET K == OwnerOf(cfg, obs, nst.par, u)
+        inD(r)  == {i \in Calls(obs) : i < r /\ FromC(obs, i, u) /\ obs[i].t = "D"}
+        outD(r) == {i \in Calls(obs) : i < r /\ ToC(obs, i, K) /\ obs[i].t = "D"}
+    IN IF K = "" THEN {} ELSE
+    {W("C07", "prefix_mismatch", j, K, cfg, "chain") :
+        j \in {j \in Calls(obs) : FromC(obs, j, u) /\ nst.ret[j] <= Len(obs)
+                 /\ ~DisposedBefore(obs, K, nst.ret[j])
+                 /\ ValsOf(obs, outD(nst.ret[j]), 1) # ChainL(cfg, 2, ValsOf(obs, inD(nst.ret[j]), 1))}}
+    \cup
+    {W("C07", "not_synchronous", b, K, cfg, "chain") :
+        b \in {b \in Calls(obs) : ToC(obs, b, K) /\ obs[b].t = "D"
+                 /\ ~\E j \in Calls(obs) : FromC(obs, j, u) /\ obs[j].t = "D" /\ InsideP(nst.par, b, j)}}
+    : u \in US}
+
 C07(cfg, obs) ==
+  IF IsUnaryChain(cfg) THEN C07Chain(cfg, obs) ELSE
   IF ~IsUnaryFam(cfg) THEN {} ELSE
   LET nst == Nest(obs)
       op == cfg.nodes[2]
